@@ -17,6 +17,7 @@ LEVEL_TEXT["C04"] = "Same flow as C03 with one edit between prover and verifier 
 LEVEL_TEXT["C05"] = "Bounded model checking of the real commit -> to_bytes -> blind_sign -> verify_blind_sign chain and of blind_proof_gen -> blind_proof_verify, each in one query with a programmed random oracle and a fixed draw table: commit succeeds and draws M+2 scalars, the signer recomputes exactly the prover's commitment-challenge input (captured octets), issues (A, e) with A(sk+e) = P1 + Q1*domain + sum H_i m_i + Q2*blind + sum J_j cm_j, the holder's verification accepts; blind proofs with all messages disclosed verify and the verifier hashes the prover's challenge input (index translation j + L + 1, M = U + R - L - 1)."
 LEVEL_TEXT["C06"] = "Same chains with one edit: a flipped payload bit in any segment of the serialized commitment (C, s^, m^_i, challenge) makes blind_sign refuse unless an independent oracle answer equals the transmitted challenge (probability 1/r); verify_blind_sign rejects (exactly) an altered committed message, blinding factor, header or signer message; a blind proof with a replaced disclosed committed message is rejected likewise. Cross-suite replays, scalar-granular truncation/extension (C08/C09 cover the framing) and edits that re-assign generators (wrong L, swapped index lists) are NOT decided."
 LEVEL_TEXT["C07"] = "Bounded model checking of the real proof_gen / commit / blind_proof_gen against a rand model that hands out a fixed table of DISTINCT draws: the number of draws is exactly 5+U / M+2, and every blinding value recomputed by a witness holder (r1, r2 from Abar and D; e~, r1~, r3~, m~_j, s~, m~_i from the responses; secret_prover_blind) equals the draw the drafts assign to that role, also for a second generation on the same inputs (disjoint draws). A constant, a reused or skipped draw, or swapped roles fails. Statistical quality of thread_rng, threads, KeyPair::random and the octet-window claim are NOT decided."
+LEVEL_TEXT["C11"] = "Bounded model checking of the query-level domain separation: the four (suite, interface) api_ids are pairwise prefix-free; in the real sign, verify, proof_gen/proof_verify, commit/blind_sign/verify_blind_sign and blind proof flows every expand_message query carries a DST that starts with the api_id of the interface that was called (recorded DST heads compared octet by octet); generator creation under the plain, blind and BLIND_-prefixed ids equals the reference (seed, seed DST, generator DST all api_id-prefixed) and is independent of earlier requests. That artefacts of one suite/interface never verify under another then follows under the random-oracle assumption; it is not decided directly, and numeric facts about the real generators (distinct, non-identity, not P1) are outside."
 NOTES = {
     "C08": "bls12_381_plus / elliptic-curve / rand are replaced by model crates (prime-order group as discrete logs mod 257, logged deterministic oracle, unconstrained randomness); generator creation and message-to-scalar hashing are stubbed by tables in operation harnesses; CBMC pointer-validity checks are ignored because zkryptium is safe Rust (checked at run time); inputs longer than the stated lengths, serde_json decoding and wall-clock time are outside.",
     "C09": "what the real bls12_381_plus accepts as a point or scalar is outside (model codecs are canonical by construction); JSON codec outside; lengths beyond the stated ranges outside.",
@@ -30,6 +31,7 @@ NOTES["C04"] = "as C03; 'a different query gets an independent answer' is the ra
 NOTES["C05"] = "programmed oracle, fixed generator table, concrete sk = 5, e-answer 9, challenge 77, fixed draws, CONCRETE committed-message scalars (11, 13, ..) - symbolic ones do not close; signer-message scalars, domain and all octets symbolic; (L, M) in {0,1}^2 quick (L+M <= 3 thorough); blind proofs only with every message disclosed (the blinding factor is the one undisclosed value)."
 NOTES["C06"] = "as C05; 'different query => independent answer' and 'different message => different scalar' are random-oracle assumptions; bit flips restricted to the payload octet of each segment (framing octets are covered by C09)."
 NOTES["C07"] = "the property is checked as usage of the randomness source by zkryptium (which draw feeds which role), under the rand model; uniformity/independence of thread_rng is the model's contract, not a result; more than 16 draws, cross-thread behaviour and key generation randomness are outside."
+NOTES["C11"] = "as C01/C03/C05/C10 (shared harnesses); cross verification is argued from query separation, not executed; real-curve generator values outside; counts <= 2 (4)."
 TECH = "bounded model checking of the compiled Rust code (Kani 0.68 -> CBMC 6.11 -> CaDiCaL), one symbolic query per shape, counterexamples replayed on the real build"
 
 NOT_APPLICABLE = {
@@ -44,7 +46,7 @@ NOT_APPLICABLE = {
 PENDING = {}
 
 
-CLAIMED = ["C01", "C02", "C03", "C04", "C05", "C06", "C07", "C08", "C09", "C10", "C12"]
+CLAIMED = ["C01", "C02", "C03", "C04", "C05", "C06", "C07", "C08", "C09", "C10", "C11", "C12"]
 
 
 def main():
